@@ -43,6 +43,7 @@ def exec_field(scn):
             r2["exc"] = exc_name(e).split(":")[0]
         out.append(r2)
     out.extend(exec_lines(scn, rid))
+    out.extend(exec_seps(scn, rid))
     return out
 
 
@@ -72,6 +73,31 @@ def exec_lines(scn, rid):
         col = {tuple(int(v[i:i + 2], 16) for i in (1, 3, 5)): d for d, v in RAConst.DIVISION_COLORS.items()}
         data = img.load()
         rec["lpx"] = [[x, y, col.get(data[x, y], 0)] for y in range(img.size[1]) for x in range(img.size[0]) if data[x, y] != (0, 0, 0)]
+    except Exception as e:
+        rec["exc"] = exc_name(e).split(":")[0]
+    return [rec]
+
+
+def exec_seps(scn, rid):
+    """PlayField + PFDrawColumnLines alone on the same chart: the non-background pixels."""
+    from harness.charts import new_map
+    notes, c = scn["notes"], scn["cfg"]
+    rec = {"id": rid + "/seps", "op": "seps", "cls": f"ext.playfield.seps.clw{min(c['clw'], 2)}", "ext": True, "notes": notes, "cfg": c,
+           "exc": "", "w": 0, "h": 0, "px": []}
+    try:
+        from reamber.algorithms.playField import PlayField
+        from reamber.algorithms.playField.parts import PFDrawColumnLines
+        t0 = min(n["t"] for n in notes)
+        m = new_map("osu", {"hits": [{"offset": float(n["t"]), "column": n["c"]} for n in notes if n["n"] == 0],
+                            "holds": [{"offset": float(n["t"]), "column": n["c"], "length": float(n["n"])} for n in notes if n["n"] > 0],
+                            "bpms": [{"offset": float(t0), "bpm": 60000.0 / BL, "metronome": 4}]})
+        pf = PlayField(m, duration_per_px=c["dpp"], note_width=c["nw"], hit_height=c["hh"], hold_height=c["lh"],
+                       column_line_width=c["clw"], start_lead=float(c["sl"]), end_lead=float(c["el"]), padding=c["pad"]) \
+            + PFDrawColumnLines()
+        img = pf.export().convert("RGB")
+        rec["w"], rec["h"] = img.size
+        data = img.load()
+        rec["px"] = [[x, y] for y in range(img.size[1]) for x in range(img.size[0]) if data[x, y] != (0, 0, 0)]
     except Exception as e:
         rec["exc"] = exc_name(e).split(":")[0]
     return [rec]
